@@ -20,6 +20,11 @@
     tools/coqeval.py on the same (header, key): outcome class, shape, range reads, and the provenance of probed cells
     (materialised through the specification decoder's units) must agree with the implementation; the specification of
     numpy basic indexing used by the theorems (np_dims, np_src, np_lo, np_hi, int_in_range) is compared with numpy itself.
+(d) CONCURRENCY (C02; outside the sequential Coq model): a dataset opened with dask chunks (open_dataset(..., chunks=...)) and
+    loaded with dask's threaded scheduler must give read_volume() as well.  Finding D45 (findings/d45_xarray_dask_race.py):
+    without a lock around the reader call concurrent chunk loads interleave seek/read on the one file handle and return
+    wrong samples silently.  While the backend array has no `lock` attribute a mismatch is reported under the finding key
+    D45-xarray-dask-race (KNOWN-FINDING once registered); with the repair applied a mismatch is a plain violation.
 """
 import os, sys, json, struct
 sys.path.insert(0, os.path.dirname(os.path.abspath(__file__)))
@@ -533,6 +538,47 @@ def numpy_spec_cases(shape):
             pending.append((term, chk, inp))
 
 
+def dask_case(d):
+    """(d): chunked, threaded load of a whole variable and of a stepped selection"""
+    try:
+        import dask
+    except ImportError:
+        R.notes.append('dask is not installed: the chunked / threaded load (finding D45) was not exercised')
+        return
+    shape, bpv, bs, chunks = (40, 40, 200), 8, (8, 8, 64), {'il': 8, 'xl': 8, 'z': 64}
+    p = os.path.join(d, 'dask.sgz')
+    write_numpy_sgz(p, rnd_cube(rng, shape), bpv=bpv, blockshape=bs)
+    with SgzReader(p) as r:
+        V = r.read_volume()
+        locked = hasattr(SeismicZfpBackendArray(shape, np.float32, r), 'lock')
+    label = f'numpy {shape} bpv={bpv} bs={bs}'
+    for sched, reps in (('synchronous', 1), ('threads', 3 if not thorough else 10)):
+        wrong, detail = 0, ''
+        for rep in range(reps):
+            ds = xr.open_dataset(p, engine=SeismicZfpBackendEntrypoint, chunks=chunks)
+            try:
+                with dask.config.set(scheduler=sched, num_workers=8):
+                    got = attempt(lambda: ds.data.values)
+                    sub = attempt(lambda: ds.data[::2, 1::3, ::-1].values)
+                if not same(got, ('val', V)) or not same(sub, ('val', V[::2, 1::3, ::-1])):
+                    wrong += 1
+                    detail = describe(got) if got[0] == 'err' else f'{int(np.sum(np.asarray(got[1]) != V)) if np.asarray(got[1]).shape == V.shape else "?"} of {V.size} samples differ'
+            finally:
+                ds.close()
+        inp = {'file': label, 'entry': f'open_dataset(chunks={chunks}).data.values and [::2, 1::3, ::-1]', 'dask scheduler': sched, 'workers': 8}
+        R.case(('dask', sched), sample=inp)
+        R.count(f'dask {sched}')
+        if wrong:
+            msg = f'{wrong} of {reps} chunked loads are not read_volume() ({detail}); no exception was raised'
+            if sched == 'threads' and not locked:
+                R.violation('oracle', inp, msg + ' -- the backend array has no lock: finding D45', finding_key='D45-xarray-dask-race')
+                if 'D45-xarray-dask-race' not in R.known:
+                    R.known.append('D45-xarray-dask-race')
+            else:
+                R.violation('oracle', inp, msg)
+    os.remove(p)
+
+
 # ------------------------------------------------------------------------------------------------ main
 def main():
     d = scratch_dir()
@@ -577,6 +623,8 @@ def main():
             if use_model:
                 numpy_spec_cases(shape)
             os.remove(fc.path)
+        if a.pid != 'C07':
+            dask_case(d)
         if use_model and pending:
             vals = coq_eval(['SZ.Lib.Py', 'SZ.Model.Accessors', 'SZ.Model.Xarray'], [t for t, _, _ in pending])
             for (term, chk, inp), v in zip(pending, vals):
